@@ -74,7 +74,10 @@ def make_set(rng, avoid):
             # a failure whose only diagnostic carries no file position (answers built without a source span)
             files[bad_index][1] = rng.choice(FILELESS) % {"p": "U%d" % bad_index}
         elif fault == "lexical":
-            files[bad_index][1] = LEX_BAD
+            # a program with an invalid character in it, or a file that is nothing but invalid characters (no token, no
+            # line break - nothing for a listing to show) or that has them first or last
+            files[bad_index][1] = rng.choice([LEX_BAD, LEX_BAD, "?", "@@", "? ?", "\\", "§", "?\n", "\n?", " ?",
+                                              "PROGRAM onlyjunkafter END_PROGRAM ?", "? PROGRAM junkfirst END_PROGRAM\n"])
         elif fault == "syntax":
             files[bad_index][1] = SYN_BAD
         else:
